@@ -184,4 +184,17 @@ def seqLast (s : List PyOp) : M PyOp :=
   | some o => pure o
   | none => throw .indexError
 
+/-- stable insertion into a list sorted by descending weight (after every element that is not smaller) -/
+def insDescQ (x : Int × Rat) : List (Int × Rat) → List (Int × Rat)
+  | [] => [x]
+  | y :: ys => if x.2 ≤ y.2 then y :: insDescQ x ys else x :: y :: ys
+
+/-- `[i for i, _ in sorted(enumerate(ws), key=itemgetter(1), reverse=True)[:k]]`: Python's sort is stable also with
+`reverse=True` (equal weights keep their original order); the slice `[:k]` with Python's meaning of a negative `k` -/
+def pySortedDescIdx (ws : List Rat) (k : Int) : List Int :=
+  let sorted := (ws.zipIdx.map (fun p => ((p.2 : Int), p.1))).foldl (fun acc x => insDescQ x acc) []
+  let n : Int := sorted.length
+  let stop : Int := if k < 0 then max 0 (n + k) else min k n
+  (sorted.take stop.toNat).map (·.1)
+
 end Ckpt.Py
